@@ -299,3 +299,11 @@ package bridgesync
 //@   props C08 C12
 //@   requires s != nil && s.processor != nil && s.processor.exitTree != nil && s.processor.exitTree.Tree != nil && len(s.processor.exitTree.Tree.zeroHashes) == 33
 //@   ensures[proof-of-that-deposit-to-that-root] (!old(s.processor.halted) && result1 == nil && forall(h, 1, 33, rhtHas(s.processor.exitTree.Tree)[desc(rhtL(s.processor.exitTree.Tree), rhtR(s.processor.exitTree.Tree), localExitRoot, depositCount, h)])) ==> foldUp(desc(rhtL(s.processor.exitTree.Tree), rhtR(s.processor.exitTree.Tree), localExitRoot, depositCount, 0), result0, depositCount, 32) == localExitRoot
+
+// ---- the schema clauses the reorg semantics rest on (C04, C07; assumption A5): every event table refers to the block
+// table with ON DELETE CASCADE, so that the single DELETE of Reorg removes the events of the dropped blocks; the
+// texts are pinned in the embedded migration files
+//@ filepin C04,C07 migrations/bridgesync0001.sql "CREATE TABLE bridge ( block_num INTEGER NOT NULL REFERENCES block(num) ON DELETE CASCADE,"
+//@ filepin C04,C07 migrations/bridgesync0001.sql "CREATE TABLE claim ( block_num INTEGER NOT NULL REFERENCES block(num) ON DELETE CASCADE,"
+//@ filepin C04,C07 migrations/bridgesync0002.sql "token_mapping ( block_num INTEGER NOT NULL REFERENCES block (num) ON DELETE CASCADE,"
+//@ filepin C04,C07 migrations/bridgesync0003.sql "legacy_token_migration ( block_num INTEGER NOT NULL REFERENCES block (num) ON DELETE CASCADE,"
